@@ -128,6 +128,29 @@ mut("C03", "prune-le1", ("internal/eval/evalers.go", """			if fe.Parents.Interse
 				p, ok := env.Entities.Get(k)
 				if !ok || p.Parents.Len() <= 1 ||"""))
 mut("C03", "partial-scope-not-reflexive", ("internal/eval/partial.go", "result = e.Type == t.Type && entityInOne(env, e, t.Entity)", "result = e.Type == t.Type && e != t.Entity && entityInOne(env, e, t.Entity)"))
+mut("C03", "visited-set-capped-at-6", ("internal/eval/evalers.go", """				todo = append(todo, k)
+				known.Add(k)
+			}
+		}
+		if len(todo) == 0 {
+			return false
+		}
+		candidate, todo = todo[len(todo)-1], todo[:len(todo)-1]
+	}
+}
+
+func entityInSet(""", """				todo = append(todo, k)
+				known.Add(k)
+			}
+		}
+		if len(todo) == 0 || known.Len() > 6 {
+			return false
+		}
+		candidate, todo = todo[len(todo)-1], todo[:len(todo)-1]
+	}
+}
+
+func entityInSet("""))
 mut("C03", "isin-skips-type", ("internal/eval/evalers.go", """	if lhs.Type != n.is {
 		return types.False, nil
 	}""", """	if lhs.Type != n.is && lhs.ID != "n3" {
